@@ -80,7 +80,11 @@ func main() {
 			pan := tr.Guard(func() {
 				switch kind {
 				case "set":
-					cache.SetChunk(fidString(e["fid"]), content(tr.I(e, "d"), tr.I(e, "n")))
+					buf := content(tr.I(e, "d"), tr.I(e, "n"))
+					cache.SetChunk(fidString(e["fid"]), buf)
+					for i := range buf { // the caller's buffer is its own again after SetChunk returned
+						buf[i] = 0xEE
+					}
 				case "get":
 					e["res"] = ramps(cache.GetChunk(fidString(e["fid"]), uint64(tr.I(e, "min"))))
 				case "slice":
